@@ -148,6 +148,15 @@ def judge(chk, pid, fs, kf_ids):
                 bad = [e for e in o["errs"] if e["kind"] != "syntax" and e["file"] not in offending]
                 if bad:
                     kf_or_violation(o, "conflict error does not name an offending file: %s (offending: %s)" % ([(e["kind"], e["name"], e["file"]) for e in bad], sorted(offending)))
+                # ... and the converse: a file that holds a conflicting declaration is named by at least one of the returned errors (two files
+                # with the same conflict on the same line are two conflicts). Only where every file parses: what else is reported next to a
+                # syntax error is not fixed by the statement.
+                elif not any(c[0] in ("syntax", "notmodule") for c in fs.ideal["conflicts"]):
+                    named = {e["file"] for e in o["errs"]}
+                    silent = sorted(set(fs.ideal["mustname"]) - named)
+                    if silent:
+                        kf_or_violation(o, "file(s) %s hold a conflicting declaration and no returned error names them (named: %s; conflicts %s)" % (
+                            silent, sorted(named), fs.ideal["conflicts"]))
         return
 
     if pid == "C12":
